@@ -95,13 +95,12 @@ induction cig as [|[op len] cig IH]; intros i vs rp qp A o B Hpos Hs Hlow Hin He
                 nth_error ((op, len) :: cig) i' = Some (op0, len0) /\ consumed <= len0 /\
                 unit_index ((op, len) :: cig) i' consumed = length (repeat op len ++ A')).
     { intros vs' rp' qp' -> -> Hs' Hlow' Hin' front Hfront.
-      destruct (IH (S i) vs' _ _ A' o B Hpos' Hs' Hlow' Hin' HX Ho Hreach') as (i' & c & op0 & len0 & Hy & Hn & Hc & Hu); [lia|].
+      destruct (IH (S i) vs' (rp + ref_unit op * len) (qp + query_unit op * len) A' o B Hpos' Hs' Hlow' Hin' HX Ho Hreach') as (i' & c & op0 & len0 & Hy & Hn & Hc & Hu); [lia|].
       exists (S i'), c, op0, len0. split; [|split; [exact Hn|split; [exact Hc|]]].
       - apply Hfront. replace (i + S i') with (S i + i') by lia.
         replace (qp + (query_unit op * len + query_units A')) with (qp + query_unit op * len + query_units A') by lia. exact Hy.
       - unfold unit_index in *. cbn [firstn]. change (expand ((op, len) :: firstn i' cig)) with (repeat op len ++ expand (firstn i' cig)).
         rewrite !app_length, repeat_length in *. lia. }
-    assert (Hplain : forall y l, In y l -> In y ([] ++ l)) by (intros; assumption).
     cbn [iter_cigar].
     destruct op; cbn [ref_unit query_unit] in *.
     * (* M *) destruct (span_lt vs (rp + len)) as [a rest] eqn:Esp.
@@ -138,10 +137,9 @@ induction cig as [|[op len] cig IH]; intros i vs rp qp A o B Hpos Hs Hlow Hin He
     * (* N *) unfold skip_lt. destruct (span_lt vs (rp + len)) as [a rest] eqn:Esp. cbn [snd].
       destruct (span_lt_in vs _ Hw _ _ _ Esp Hin) as [_ Hinb]. cbn [snd] in Hinb.
       destruct (span_lt_spec _ _ _ _ Esp) as (Hvs & _ & Hb). destruct (Hb Hw) as [Hrest _].
-      apply (Hgo rest (rp + len) qp) with (front := []); auto; try lia.
-      -- rewrite Hvs in Hs. eapply sorted_strict_suffix; eauto.
-      -- eapply Forall_impl; [|exact Hrest]. cbn. intros; lia.
-      -- apply Hinb. lia.
+      apply (Hgo rest (rp + len) qp) with (front := []);
+        [lia|lia|rewrite Hvs in Hs; eapply sorted_strict_suffix; eauto
+        |eapply Forall_impl; [|exact Hrest]; cbn; intros; lia|apply Hinb; lia|auto].
     * (* S *) apply (Hgo vs rp (qp + len)) with (front := []); auto; lia.
     * (* H *) apply (Hgo vs rp qp) with (front := []); auto; lia.
     * (* P *) apply (Hgo vs rp qp) with (front := []); auto; lia.
